@@ -382,6 +382,21 @@ def compress_family(tier):
         return cached
     t0 = time.time()
     build_harness()
+    mc = None
+    if not os.environ.get("VERIF_SKIP_MC"):
+        # Compress_MC.tla: compression layers across the proxies of a cluster (MOVED / UMFORWARD-wrapped / unwrapped forwarding)
+        cms = [tlc_model_check("compress_" + c, "Compress_MC.tla", "Compress_MC_%s.cfg" % c, workers=2, timeout=300, xmx="2g", extra="")
+               for c in ("moved", "wrapped", "disabled")]
+        # the design as found (fixed by aa7fa11) and unlimited redirection (known finding) must be rejected by the model
+        for v in ("bad_asfound", "known_unwrapped"):
+            r = tlc_model_check("compress_" + v, "Compress_MC.tla", "Compress_MC_%s.cfg" % v, workers=2, timeout=300, xmx="2g", extra="")
+            if r.get("ok") or not r.get("violated"):
+                raise ToolError("Compress design model accepts %s" % v)
+        mc = {"name": "Compress_MC[moved,wrapped,disabled]; double compression as found and unwrapped forwarding rejected",
+              "ok": all(m["ok"] for m in cms), "wall_s": round(sum(m["wall_s"] for m in cms), 1),
+              "states": sum(m.get("states", 0) for m in cms), "transitions": sum(m.get("transitions", 0) for m in cms),
+              "violated": next((m.get("violated") for m in cms if m.get("violated")), None),
+              "out_tail": "\n".join(m.get("out_tail", "") for m in cms if not m["ok"])}
     d = fresh_dir(os.path.join(WORK, "compress_" + tier))
     parts = 8 if tier == "quick" else 14
     count = 80 if tier == "quick" else 1500
@@ -417,7 +432,7 @@ def compress_family(tier):
                 if len(samples) < 2 and e["kind"] == "wr" and e["strategy"] == "allow_all" and e["multi"]:
                     samples.append(e)
     res = {"tier": tier, "seed": sd, "wall_s": time.time() - t0, "cases": cases, "kinds": {"distinct_shapes": len(kinds)}, "nontrivial": nontrivial,
-           "violations": viols[:300], "violation_count": len(viols), "samples": samples, "mc": None}
+           "violations": viols[:300], "violation_count": len(viols), "samples": samples, "mc": mc}
     for f in files:
         os.remove(f)
     cache_put(key, res)
